@@ -86,7 +86,7 @@ func (w *World) verifyFunction(c *Contract) (res *FuncResult) {
 	vc.entry = st.clone()
 	env := vc.contractEnv(c, args, nil, st, nil)
 	var reqs []string
-	for _, cl := range c.Clauses {
+	for _, cl := range vc.clauses(c) {
 		if cl.Raw.Kind == "requires" || cl.Raw.Kind == "use" {
 			t := vc.specBool(env, cl.Expr)
 			reqs = append(reqs, t)
@@ -113,19 +113,19 @@ func (w *World) verifyFunction(c *Contract) (res *FuncResult) {
 	_ = results
 	// ghost assignments run at every normal return
 	hasG := false
-	for _, cl := range c.Clauses {
+	for _, cl := range vc.clauses(c) {
 		hasG = hasG || cl.Raw.Kind == "gassign"
 	}
 	if hasG {
 		for i := range fr.retVals {
 			rs := &fr.retVals[i]
 			rs.st = rs.st.clone()
-			vc.applyGassigns(c, vc.contractEnv(c, args, rs.vals, rs.st, vc.entry), rs.st)
+			vc.applyGassigns(c, vc.contractEnv(c, args, rs.vals, rs.st, vc.entry), rs.st, false)
 		}
-		vc.applyGassigns(c, vc.contractEnv(c, args, results, out, vc.entry), out)
+		vc.applyGassigns(c, vc.contractEnv(c, args, results, out, vc.entry), out, false)
 	}
 	// postconditions: one obligation per clause, one sub-goal per return site
-	for _, cl := range c.Clauses {
+	for _, cl := range vc.clauses(c) {
 		if cl.Raw.Kind != "ensures" {
 			continue
 		}
@@ -502,13 +502,13 @@ func (w *World) verifySubtype(ic, cc *Contract) (res *FuncResult) {
 	iargs := append([]Val{vc.makeInterface(st, cargs[0], nil, ic.Params[0].Type())}, cargs[1:]...)
 	pre := st.clone()
 	ienv := vc.contractEnv(ic, iargs, nil, st, nil)
-	for _, cl := range ic.Clauses {
+	for _, cl := range vc.clauses(ic) {
 		if cl.Raw.Kind == "requires" {
 			vc.assume("true", vc.specBool(ienv, cl.Expr))
 		}
 	}
 	cenv := vc.contractEnv(cc, cargs, nil, st, nil)
-	for _, cl := range cc.Clauses {
+	for _, cl := range vc.clauses(cc) {
 		if cl.Raw.Kind == "requires" {
 			vc.oblige(st, "subtype.pre", cl.Raw.Label, vc.specBool(cenv, cl.Expr), cc.Decl.Pos(), nil)
 		}
@@ -536,13 +536,13 @@ func (w *World) verifySubtype(ic, cc *Contract) (res *FuncResult) {
 		results = append(results, freshVal(vc, st, sig.Results().At(i).Type(), "r"))
 	}
 	cpost := vc.contractEnv(cc, cargs, results, st, pre)
-	for _, cl := range cc.Clauses {
+	for _, cl := range vc.clauses(cc) {
 		if cl.Raw.Kind == "ensures" {
 			vc.assume("true", vc.specBool(cpost, cl.Expr))
 		}
 	}
 	ipost := vc.contractEnv(ic, iargs, results, st, pre)
-	for _, cl := range ic.Clauses {
+	for _, cl := range vc.clauses(ic) {
 		if cl.Raw.Kind == "ensures" {
 			vc.oblige(st, "subtype.post", cl.Raw.Label, vc.specBool(ipost, cl.Expr), cc.Decl.Pos(), vc.clauseProps(ic, cl))
 		}
